@@ -142,7 +142,7 @@ PROPS["C17"] = {
 PROPS["C09"] = {
     "technique": "differential monitor: zoned context vs the same expression without location at the wall-clock time, plus an independent statement of the naive->instant mapping on chrono-tz's LocalResult",
     "level_text": "For generated expressions (with span bounds placed inside and next to gaps and folds), ~46 curated zones (half-hour and 45-minute offsets, 30-minute DST, southern hemisphere, date-line changes, second-granular LMT) plus random IANA zones, and instants concentrated in the 48 h around real transitions found by scanning the zone, state/is_*/next_change/iter_range of the zoned context are compared with naive evaluation at the wall-clock time; every returned instant must be the unique / later / first-valid-after mapping of the naive result, and bounds must not go backwards in absolute time. Exploration; the evidence counts unique, ambiguous and non-existent naive results actually mapped.",
-    "rule": "seeded ASTs (<= 3 rules) + in 45% of the cases a rule whose span bounds sit at a transition's wall-clock times +-1/15 min x zone x instant (75% within +-48 h of a transition of a sampled year 1900..2100, bias to +-90 min and to +-1 s/+-1 min) x input expressed in 3 other zones x window of 1 min..4 days. Non-trivial: every checked instant; distinct by hash of (AST, zone, instant).",
+    "rule": "seeded ASTs (<= 3 rules) + in 45% of the cases a rule whose span bounds sit at a transition's wall-clock times +-1/15 min x zone x instant (75% within +-48 h of a transition of a sampled year 1900..2100, bias to +-90 min and to +-1 s/+-1 min) x input expressed in 3 other zones x window of 1 min..4 days; plus an EXHAUSTIVE sweep of every zone of the chrono-tz database (596) x every offset transition of 1985..2037 (thorough: 1900..2100) found by scanning, two single-rule expressions per transition with span bounds in/at the gap or fold, instant at the transition -2 h..+2 h (sweep_zones, sweep_transitions, sweep_checks_passed). Non-trivial: every checked instant; distinct by hash of (AST, zone, instant).",
     "assumptions": ["chrono-tz's database and LocalResult are shared with the implementation: a wrong database is out of scope, a wrong use of it is what is monitored", "naive evaluation is the reference (C01-C03)"],
 }
 
